@@ -630,7 +630,7 @@ class Interp:
             else:
                 di = i - (len(pos) - len(defaults))
                 if di >= 0:
-                    env[name] = self.eval_in_module(fi.module, defaults[di])
+                    env[name] = self._default_value(fi, ("p", di), defaults[di])
                 else:
                     env[name] = Term("param", name)
         if a.vararg:
@@ -641,7 +641,7 @@ class Interp:
             if k.arg in kwargs:
                 env[k.arg] = kwargs[k.arg]
             elif d is not None:
-                env[k.arg] = self.eval_in_module(fi.module, d)
+                env[k.arg] = self._default_value(fi, ("k", k.arg), d)
             else:
                 env[k.arg] = Term("param", k.arg)
         named = set(pos) | {k.arg for k in a.kwonlyargs}
@@ -1114,6 +1114,15 @@ class Interp:
         self.emit("store", st, target=Term("attr", base, attr), value=v, base=base, attr=attr, setter=None)
 
     # ------------------------------------------------------------ expressions
+    def _default_value(self, fi, key, expr):
+        """A parameter default is evaluated once, when the function is defined: every call that omits the argument gets
+        the same object (a mutable default is shared between calls - and between the instances constructed with it)."""
+        table = self.__dict__.setdefault("_defaults", {})
+        k = (fi.qualname, key)
+        if k not in table:
+            table[k] = self.eval_in_module(fi.module, expr)
+        return table[k]
+
     def eval_in_module(self, mod: Module, expr) -> Value:
         return self.eval(expr, Frame(None, mod, {}))
 
@@ -2050,6 +2059,12 @@ class Interp:
             if callee.self_val is not None and not isinstance(callee.self_val, Obj):
                 self.invalidate_attrs(callee.self_val, modset(self.p, fi))
             self.maybe_raise(ev)
+            eff = self.opts.get("call_effect")
+            if eff is not None:
+                # a rule's model of what a call that is not inlined does (e.g. user handlers behind raise_event)
+                r = eff(self, callee, args, kwargs, ev)
+                if r is not None:
+                    return r
             return t
         if isinstance(callee, Cls) and self.opts.get("instantiate") and self.opts["instantiate"](callee.ci) and not starkw:
             n = self.__dict__.setdefault("_obj_counter", {})
@@ -2557,12 +2572,19 @@ class Interp:
                 return Term("fstr", *parts)
         if isinstance(base, Const) and isinstance(base.v, str) and meth in ("startswith", "endswith") and len(args) == 1 and isinstance(args[0], (Tup, Lst)) and all(isinstance(x, Const) and isinstance(x.v, str) for x in args[0].items):
             return Const(getattr(base.v, meth)(tuple(x.v for x in args[0].items)))
+        if isinstance(base, Const) and isinstance(base.v, bytes) and all(isinstance(a, Const) for a in args) and not kwargs and meth in ("decode", "hex", "strip", "startswith", "endswith", "find", "count"):
+            try:
+                return Const(getattr(base.v, meth)(*[a.v for a in args]))
+            except Exception:
+                return NotImplemented
         if isinstance(base, Const) and isinstance(base.v, str) and all(isinstance(a, Const) for a in args) and not kwargs:
-            if meth in ("strip", "lower", "upper", "startswith", "endswith", "find", "rfind", "split", "format", "lstrip", "rstrip", "encode", "replace", "join"):
+            if meth in ("strip", "lower", "upper", "startswith", "endswith", "find", "rfind", "split", "format", "lstrip", "rstrip", "encode", "replace", "join", "count", "index", "rindex", "isdigit", "isspace", "isalpha", "title", "capitalize", "splitlines", "partition", "rpartition", "zfill", "ljust", "rjust", "center"):
                 try:
                     r = getattr(base.v, meth)(*[a.v for a in args])
                     if isinstance(r, list):
                         return Lst([Const(x) for x in r])
+                    if isinstance(r, tuple):
+                        return Tup([Const(x) for x in r])
                     return Const(r)
                 except Exception:
                     return NotImplemented
